@@ -6,7 +6,7 @@
            missing key, stripping).
    Axioms: only those of the standard library's real numbers / Coquelicot
    (sig_forall_dec, sig_not_dec, functional_extensionality_dep, Classical_Prop.classic). *)
-From Coq Require Import Reals Lra Psatz List.
+From Coq Require Import Reals Lra Psatz List Nsatz.
 From Coquelicot Require Import Coquelicot.
 From PM Require Import C06Defs.
 Local Open Scope R_scope.
@@ -108,15 +108,16 @@ Ltac c06_nz :=
 Ltac c06_unify_fn f :=
   repeat match goal with
   | |- context [f ?a] =>
-      match goal with
+      let s := fresh "c06u" in
+      set (s := f a);          (* hides every syntactic occurrence *)
+      repeat match goal with
       | |- context [f ?b] =>
-          tryif constr_eq a b then fail else
-            (let H := fresh "Hs" in
-             assert (H : f b = f a)
-               by (apply f_equal; first [ ring | field; repeat split; c06_nz | lra ]);
-             rewrite H; clear H)
+          let H := fresh "Hs" in
+          assert (H : f b = s) by (subst s; apply f_equal; ring);
+          rewrite H; clear H
       end
-  end.
+  end;
+  repeat match goal with s := f _ |- _ => subst s end.
 Ltac c06_unify_rpow :=
   repeat match goal with
   | |- context [rpow ?c ?a] =>
@@ -130,6 +131,7 @@ Ltac c06_unify_rpow :=
       end
   end.
 Ltac c06_unify :=
+  cbv beta iota delta [pow] in *;
   c06_unify_fn sqrt; c06_unify_fn exp; c06_unify_fn cos; c06_unify_fn sin; c06_unify_fn ln;
   c06_unify_fn atan; c06_unify_fn asin; c06_unify_fn acos; c06_unify_fn tan; c06_unify_rpow.
 
@@ -149,10 +151,33 @@ Ltac c06_sqrt_as_rpow :=
   | _ => idtac
   end.
 
+(* algebraic fallback: replace every [sqrt e] by a fresh r with r * r = e and every [/ x] by a
+   fresh xi with x * xi = 1, then decide the polynomial identity with nsatz *)
+Ltac c06_pos :=
+  repeat apply Rplus_le_le_0_compat; first [ apply pow2_ge_0 | apply Rle_0_sqr | apply Rlt_le; assumption | lra | nra ].
+Ltac c06_abs_sqrt :=
+  repeat match goal with
+  | |- context [sqrt ?e] =>
+      lazymatch e with context [sqrt _] => fail | _ => idtac end;
+      let r := fresh "r" in let Hr := fresh "Hr" in
+      assert (Hr : sqrt e * sqrt e = e) by (apply sqrt_sqrt; c06_pos);
+      try (let Hn := fresh "Hn" in assert (Hn : sqrt e <> 0) by c06_nz);
+      generalize dependent (sqrt e); intro r; intros
+  end.
+Ltac c06_abs_inv :=
+  repeat match goal with
+  | |- context [/ ?x] =>
+      let xi := fresh "ri" in let Hi := fresh "Hi" in
+      assert (Hi : x * / x = 1) by (apply Rinv_r; c06_nz);
+      generalize dependent (/ x); intro xi; intros
+  end.
+Ltac c06_alg :=
+  c06_abs_sqrt; c06_abs_inv; cbv beta iota delta [Rpow_def.pow] in *; solve [nsatz].
+
 Ltac c06_dom := c06_zero; unfold Rdiv in *; repeat split; try exact I; c06_nz.
 Ltac c06_close :=
   c06_zero; unfold Rdiv in *; c06_sign; c06_sqrt_as_rpow; c06_unify;
-  first [ ring | field; repeat split; c06_nz ].
+  first [ ring | field; repeat split; c06_nz | c06_alg ].
 
 Ltac c06_derive :=
   cbv beta zeta in *; c06_hyps;
@@ -161,3 +186,8 @@ Ltac c06_derive :=
 Ltac c06_const :=
   cbv beta zeta in *; c06_hyps; repeat split;
   first [ reflexivity | ring | unfold Rdiv in *; c06_unify; field; repeat split; c06_nz ].
+
+(* Matrix.inverse with the LAPACK stub: the traced derivative solves the differentiated hypothesis *)
+Ltac c06_inverse :=
+  cbv beta zeta in *; c06_hyps; repeat split;
+  cbv beta iota delta [Rpow_def.pow] in *; solve [nsatz].
